@@ -105,6 +105,11 @@ func (p Plan) ApplyDoc(doc any) (any, Applied) {
 		cur = out
 		a.Descs = append(a.Descs, d)
 	}
+	if p.Widen != nil && widenTooBig(cur, *p.Widen) {
+		// replicating would exceed MaxInput: do not even materialise it (the harness would spend seconds encoding it)
+		a.Oversize = true
+		return cur, a
+	}
 	if p.Widen != nil {
 		if out, ptr, ok := widen(cur, *p.Widen); ok {
 			cur = out
@@ -114,6 +119,30 @@ func (p Plan) ApplyDoc(doc any) (any, Applied) {
 		}
 	}
 	return cur, a
+}
+
+// widenArrays lists the pointers of the non-empty arrays of doc.
+func widenArrays(doc any) []string {
+	var arrays []string
+	for _, ptr := range jsonmut.Pointers(doc) {
+		if v, ok := jsonmut.Lookup(doc, ptr); ok {
+			if a, isArr := v.([]any); isArr && len(a) > 0 {
+				arrays = append(arrays, ptr)
+			}
+		}
+	}
+	return arrays
+}
+
+// widenTooBig estimates whether widening would push the document over MaxInput.
+func widenTooBig(doc any, w Widen) bool {
+	arrays := widenArrays(doc)
+	if len(arrays) == 0 || w.N < 2 || w.N > 5000 {
+		return false
+	}
+	v, _ := jsonmut.Lookup(doc, arrays[int(w.Node%uint32(len(arrays)))])
+	a := v.([]any)
+	return len(jsonmut.Encode(a))/len(a)*w.N > MaxInput
 }
 
 // widen replicates the elements of the selected non-empty array (selection = Node modulo the number of such arrays).
@@ -171,7 +200,7 @@ func (p Plan) Apply(seed []byte) ([]byte, Applied) {
 	}
 	mut, a := p.ApplyDoc(doc)
 	out := jsonmut.Encode(mut)
-	if len(out) > MaxInput {
+	if a.Oversize || len(out) > MaxInput {
 		a.Oversize = true
 		return out, a
 	}
@@ -179,7 +208,7 @@ func (p Plan) Apply(seed []byte) ([]byte, Applied) {
 		out = p.Raw.Apply(out, mut)
 		a.RawDone = true
 	}
-	a.Oversize = len(out) > MaxInput
+	a.Oversize = a.Oversize || len(out) > MaxInput
 	return out, a
 }
 
